@@ -511,6 +511,8 @@ def _judge0(c):
     previous *observed* state, with the matrices the node itself holds (no Coq model involved)."""
     if c.get("kind") == "init":
         return _judge_init(c)
+    if c.get("kind") == "softmax":
+        return _judge_softmax(c)
     try:
         o = run_impl(c)
     except Exception as e:
@@ -611,10 +613,108 @@ def gen_ugly(rng, i):
     return c
 
 
+# ---- directed probe: the 'softmax' activation, judged against a reference softmax written here (the random scenarios above take the
+# node's own resolved function as f, so they cannot see a softmax that normalises the wrong way on the reservoir's column vector)
+def _ref_softmax(v):
+    """y_k = exp(v_k) / sum_i exp(v_i), i over ALL entries of the vector (max subtracted first: no overflow)"""
+    v = np.asarray(v, dtype=float)
+    e = np.exp(v - np.max(v))
+    return e / e.sum()
+
+
+_HARD = "hard"      # exactly computable activation used where only the feedback activation is under test
+
+
+def softmax_cases(rng):
+    """both equations x (activation='softmax' | fb_activation='softmax' | both) x (scalar | per-unit lr); dense dyadic W / Win / bias"""
+    out = []
+    for eq in ("internal", "external"):
+        for act, fbact in (("softmax", None), (_HARD, "softmax"), ("softmax", "softmax")):
+            for lrv in (False, True):
+                n, d, T = rng.randint(3, 5), rng.randint(1, 2), 4
+                c = {"kind": "softmax", "eq": eq, "act": act, "fb_act": fbact, "units": n, "in_dim": d,
+                     "W": rmat(rng, n, n), "Win": rmat(rng, n, d, den=4, lim=8), "bias": [Fraction(rng.randint(-8, 8), 4) for _ in range(n)],
+                     "lr": [Fraction(rng.randint(1, 8), 8) for _ in range(n)] if lrv else Fraction(rng.randint(1, 8), 8),
+                     "X": rrows(rng, T, d), "r0": [core.dyadic(rng, 4, 2) for _ in range(n)],
+                     "how": "call" if fbact else rng.choice(["run", "call"])}
+                if fbact:
+                    k = rng.randint(2, 3)
+                    c["Wfb"], c["fbs"] = rmat(rng, n, k, den=4, lim=6), rrows(rng, T, k, lim=6)
+                out.append(c)
+    return out
+
+
+def _judge_softmax(c):
+    """every step from a random start state: new state == documented law with f (resp. g) = softmax over all units of the
+    pre-activation (resp. feedback) vector, recomputed from the previous OBSERVED state; tolerance 1e-9"""
+    rpy()
+    from reservoirpy.node import Node
+    from reservoirpy.nodes import Reservoir
+    n, d = c["units"], c["in_dim"]
+    W, Win, bias = farr(c["W"], n), farr(c["Win"], d), fvec(c["bias"]).reshape(-1, 1)
+    lr = fvec(c["lr"]) if isinstance(c["lr"], list) else float(fr(c["lr"]))
+    X, r0 = farr(c["X"], d), fvec(c["r0"]).reshape(1, -1)
+    hard = exact_fn(_HARD)
+    f = _ref_softmax if c["act"] == "softmax" else hard
+    g, Wfb, fbs = None, None, None
+    key = "law:softmax-activation"
+    try:
+        kw = dict(W=W.copy(), Win=Win.copy(), bias=bias.copy(), lr=lr, equation=c["eq"], activation="softmax" if c["act"] == "softmax" else hard,
+                  noise_rc=0.0, noise_in=0.0, noise_fb=0.0, name=uname("smx"))
+        snd = None
+        if c.get("fb_act"):
+            k = len(c["Wfb"][0])
+            Wfb, fbs, g = farr(c["Wfb"], k), farr(c["fbs"], k), _ref_softmax
+            node = Reservoir(Wfb=Wfb.copy(), fb_activation="softmax", **kw)
+
+            def sinit(nd, x=None, **kwargs):
+                nd.set_input_dim(k)
+                nd.set_output_dim(k)
+            snd = Node(forward=lambda nd, x: x, initializer=sinit, input_dim=k, output_dim=k, name=uname("smxsnd"))
+            node <<= snd
+            snd.initialize(np.zeros((1, k)))
+            node.initialize(X[:1])
+            node.initialize_feedback()
+        else:
+            node = Reservoir(**kw)
+            node.initialize(X[:1])
+        node.reset(to_state=r0)
+        s = np.asarray(node.internal_state, dtype=float).reshape(-1, 1).copy()
+        if c["how"] == "run":
+            outs = np.asarray(node.run(X), dtype=float)
+        else:
+            rows_ = []
+            for t in range(len(X)):
+                if snd is not None:
+                    snd.reset(to_state=fbs[t:t + 1])
+                rows_.append(np.asarray(node.call(X[t:t + 1]), dtype=float))
+            outs = np.vstack([np.atleast_2d(r) for r in rows_])
+        sfin = np.asarray(node.internal_state, dtype=float).ravel()
+    except Exception as e:  # noqa: BLE001
+        return _viol(key, "a reservoir with the 'softmax' activation (%s) raises %r" % (c["eq"], e), c)
+    if outs.shape != (len(X), n):
+        return _viol(key, "softmax reservoir: outputs of shape %s, expected %s" % (outs.shape, (len(X), n)), c)
+    which = " and ".join((["activation"] if c["act"] == "softmax" else []) + (["fb_activation"] if c.get("fb_act") else []))
+    r = r0.reshape(-1, 1)
+    for t in range(len(X)):
+        y = fbs[t].reshape(-1, 1) if Wfb is not None else None
+        _, s, r2 = numpy_law(c["eq"], W, Win, bias, Wfb, lr, f, g, s, r, X[t].reshape(-1, 1), y)
+        if not np.allclose(r2.ravel(), outs[t], rtol=1e-9, atol=1e-9):
+            return _viol(key, "%s='softmax', %s equation, step %d: the new state is not the documented update with softmax taken over ALL units "
+                         "of the %s vector (max abs error %.3g)" % (which, c["eq"], t, "pre-activation" if c["act"] == "softmax" else "feedback",
+                                                                    float(np.abs(r2.ravel() - outs[t]).max())), c, r2.ravel().tolist(), outs[t].tolist())
+        r = outs[t].reshape(-1, 1)
+    if c["eq"] == "external" and not np.allclose(s.ravel(), sfin, rtol=1e-9, atol=1e-9):
+        return _viol(key, "%s='softmax', external equation: internal_state after the steps is not the leaky integration of the pre-activations" % which,
+                     c, s.ravel().tolist(), sfin.tolist())
+    return None
+
+
 def oracle(ctx, scale=1):
     rng = ctx.rng("oracle")
     N = ctx.n(150, 1500) * scale
     cases = gen_cases(rng, N // 2, big=True) + [gen_ugly(rng, i) for i in range(N - N // 2)] + [gen_init_case(rng) for _ in range(N // 5)]
+    cases += softmax_cases(ctx.rng("oracle-softmax"))
     out = []
     for c in cases:
         v = _judge(c)
